@@ -180,6 +180,14 @@ Definition x_cfg (p : unknown_policy) : cloud_cfg :=
   mkCfg x_acct x_pw [76; 49] [83; 49]
         [mkReg (u ++ [48]) x_key x_tok; mkReg u x_tok x_key; mkReg (firstn 31 u) x_key x_key] p.
 
+(* a cloud object is cached for the rest of a discovery session only once its login has succeeded (so no later request of
+   the session can go out without the session id); a failed first login leaves nothing cached - against ANY server *)
+Theorem C19_cloud_cached_only_after_login : forall SV (srv : SV -> request -> SV * outcome) dev stamp_of region account password w r dc' w',
+  get_cloud SV srv dev stamp_of None region account password w = (r, dc', w') ->
+  match r with Ok c => dc' = Some c /\ c_has_session c = true | Err _ => dc' = None end.
+Proof. exact get_cloud_cached_only_after_login. Qed.
+Print Assumptions C19_cloud_cached_only_after_login.
+
 Example C19_nonvacuous_signature :
   let d := [(K_udpid, x_tok); (K_sessionId, []); (K_password, x_pw)] in
   beqb (sign EP_LOGIN d) (sign EP_LOGIN (rev d)) && ref_signature_ok EP_LOGIN (rev (dict_set d K_sign (sign EP_LOGIN d)))
